@@ -340,6 +340,100 @@ def check_int(kind, par):
     return out, n
 
 
+def check_inplace(kind, par):
+    """history on one container: evaluate every variable, change the state in place (the field's own arrays, then a replaced array), evaluate
+    again: the values are those of a fresh field holding the new state"""
+    out = []
+    def mk():
+        if kind == "euler1d":
+            return space.euler.euler1d(gamma=par)
+        if kind == "euler2d":
+            return space.euler.euler2d(gamma=par)
+        return space.shallow.shallowwater1d(g=par)
+    model, model_b, ref_model = mk(), mk(), mk()       # (model_b serves the bare list) the reference values come from another model object: the one under test sees nothing but its own container
+    if kind == "euler2d":
+        data = [np.array([1.0, 2.0, 0.5]), np.array([[0.3, -1.0, 0.2], [0.1, 0.4, -0.6]]), np.array([3.0, 6.0, 2.5])]
+        m = space.mesh2.mesh2d(3, 1, 1.0, 1.0)
+    elif kind == "euler1d":
+        data = [np.array([1.0, 2.0, 0.5]), np.array([0.3, -1.0, 0.2]), np.array([3.0, 6.0, 2.5])]
+        m = space.mesh_spec(("uni", 3, 2.0, 0.0))
+    else:
+        data = [np.array([1.0, 2.0, 0.5]), np.array([0.3, -1.0, 0.2])]
+        m = space.mesh_spec(("uni", 3, 2.0, 0.0))
+    f = space.field.fdata(model, m, [d.copy() for d in data])
+    bare = [d.copy() for d in data]
+    n = 0
+    steps = [("scaled in place", lambda c: [c[-1].__imul__(1.7), c[1].__imul__(-1.0)]), ("array replaced", lambda c: c.__setitem__(0, c[0] * 1.3)),
+             ("elements assigned", lambda c: c[-1].__setitem__(slice(None), c[-1] + 0.5))]
+    for label, change in [("first look", lambda c: None)] + steps:
+        change(f.data)
+        change(bare)
+        fresh = space.field.fdata(ref_model, m, [np.array(d, float).copy() for d in f.data])
+        ref = {}
+        with np.errstate(all="ignore"):
+            for v in model.list_var():
+                ref[v] = fresh.phydata(v)
+        for v in model.list_var():
+            n += 1
+            with np.errstate(all="ignore"):
+                a, b = f.phydata(v), ref[v]
+            if not space.same_bits(a, b):
+                out.append(("C17/%s/%s/after-in-place-change" % (kind, v), "%s %r: %r of a field whose data were %s is %r, a fresh field with the same data gives %r" % (
+                    kind, par, v, label, np.asarray(a).tolist(), np.asarray(b).tolist()), 0))
+        with np.errstate(all="ignore"):
+            pb = ref_model.cons2prim([np.array(d, float).copy() for d in bare])
+            pa = model_b.cons2prim(bare)
+        if not space.same_bits(list(pa), list(pb)):
+            out.append(("C17/%s/cons2prim/after-in-place-change" % kind, "%s %r: cons2prim of a list whose arrays were %s differs from cons2prim of a fresh copy" % (kind, par, label), 0))
+    return out, n
+
+
+def check_shared_nozzle(law):
+    """history: a field on mesh A of a nozzle model; the same model object is then discretised on mesh B (same number of cells, other geometry);
+    every variable of the field on mesh A still has the value it had, and massflow is rho u A(x) at the centres of mesh A"""
+    A = space.SECTION_LAWS[law]
+    noz = space.euler.nozzle(A)
+    out = []
+    mA, mB = space.mesh_spec(("uni", 4, 1.0, 0.0)), space.mesh_spec(("uni", 4, 3.0, -1.0))
+    space.modeldisc.fvm(noz, mA, space.xnum.extrapol1())
+    f = space.field.fdata(noz, mA, [np.array([1.0, 2.0, 0.5, 1.5]), np.array([0.3, -1.0, 0.2, 0.7]), np.array([3.0, 6.0, 2.5, 4.0])])
+    with np.errstate(all="ignore"):
+        before = {v: np.asarray(f.phydata(v), float).copy() for v in noz.list_var()}
+    want = f.data[1] * A(np.asarray(mA.centers(), float))
+    if not np.all(np.abs(before["massflow"] - want) <= 8 * EPS * np.abs(want)):
+        out.append(("C17/nozzle/massflow/definition", "nozzle %s: massflow %r, rho u A(x) = %r" % (law, before["massflow"].tolist(), want.tolist()), 0))
+    space.modeldisc.fvm(noz, mB, space.xnum.extrapol1())
+    n = 0
+    for v in noz.list_var():
+        n += 1
+        with np.errstate(all="ignore"):
+            now = np.asarray(f.phydata(v), float)
+        if not np.array_equal(now, before[v], equal_nan=True):
+            out.append(("C17/nozzle/%s/changes-when-the-model-is-discretised-on-another-mesh" % v, "nozzle %s: %r of a field on mesh A was %r; after the same model object was discretised on mesh B "
+                        "(4 cells, other length and origin) it is %r" % (law, v, before[v].tolist(), now.tolist()), 0))
+    return out, n
+
+
+def shard_shared_nozzle(law):
+    res = core.Res()
+    v, n = check_shared_nozzle(law)
+    res.evals += n
+    res.nontrivial += n
+    for s, w, _ in v:
+        res.violation(s, w, {"cfg": ["sharednoz", law, None], "index": 0})
+    return res
+
+
+def shard_inplace(cfg):
+    res = core.Res()
+    v, n = check_inplace(cfg[0], cfg[1])
+    res.evals += n
+    res.nontrivial += n
+    for s, w, _ in v:
+        res.violation(s, w, {"cfg": ["inplace", cfg[0], cfg[1]], "index": 0})
+    return res
+
+
 def shard_int(cfg):
     res = core.Res()
     v, n = check_int(cfg[0], cfg[1])
@@ -352,11 +446,17 @@ def shard_int(cfg):
 
 def run(ctx):
     ctx.pmap("variables", shard, configs(ctx.tier))
+    ctx.pmap("nozzle-model-on-two-meshes", shard_shared_nozzle, ["parab", "lin", "bump"], procs=1)
+    ctx.pmap("state-changed-in-place", shard_inplace, [("euler1d", 1.4), ("euler1d", 5.0 / 3.0), ("euler2d", 1.4), ("shallowwater", 9.81)])
     ctx.pmap("integer-typed-data", shard_int, [("euler1d", 1.4), ("euler1d", 1.2), ("shallowwater", 9.81), ("burgers", None), ("convection", 2.0)])
     ctx.pmap("fdata_fromprim", shard_fromprim, [0])
 
 
 def replay(case):
+    if case["cfg"][0] == "sharednoz":
+        return [(s, w) for s, w, _ in check_shared_nozzle(case["cfg"][1])[0]]
+    if case["cfg"][0] == "inplace":
+        return [(s, w) for s, w, _ in check_inplace(case["cfg"][1], case["cfg"][2])[0]]
     if case["cfg"][0] == "int":
         return [(s, w) for s, w, _ in check_int(case["cfg"][1], case["cfg"][2])[0]]
     if case["cfg"][0] == "fromprim":
